@@ -6,7 +6,7 @@ CONSTANTS Nib = {0, 1}
           MaxKeys = 4
           TrackHash = FALSE
           MaxRoots = 0
-          Mode = "mc"
+          Mode = "edges"
           Depth = 0
           MaxGen = 0
           CommitWeight = 1
@@ -14,5 +14,6 @@ CONSTANTS Nib = {0, 1}
 INVARIANTS TreeInv StoreExact ReadBackInv
 PROPERTIES CommitOK
 CONSTRAINT Small
+ACTION_CONSTRAINT Edge
 VIEW View
 CHECK_DEADLOCK FALSE
